@@ -884,6 +884,7 @@ def main(argv):
     ap.add_argument("--tier", default=os.environ.get("VERIF_TIER", "quick"))
     ap.add_argument("--replay")
     ap.add_argument("--unit", help="run a single unit and print its obligations (development)")
+    ap.add_argument("--witness", action="store_true", help="with --unit: search concrete inputs for the failures and replay them natively")
     a = ap.parse_args(argv)
     if a.replay:
         return replay_file(a.property, a.replay)
@@ -896,6 +897,12 @@ def main(argv):
             for r in ur.results:
                 if r["status"] != "SUCCESS":
                     print("  %-8s %-9s %s  [%s] %s:%s" % (r["status"], r["cls"], r["id"], r["desc"][:150], os.path.basename(r["file"]), r["line"]))
+            if a.witness and ur.failed():
+                reps = witness_and_replay(a.unit, a.tier, workdir, cfg, ur.failed()[:3], a.property)
+                for rp in reps:
+                    rec = json.load(open(rp["path"]))
+                    print("  witness for %s: inputs=%s" % (rec["obligation"], json.dumps(rec["inputs"])[:1500]))
+                    print("  native replay: %s" % json.dumps(rec["native_replay"])[:1200])
             if os.environ.get("VERIF_KEEP"):
                 print("kept", workdir)
                 workdir = None
